@@ -207,3 +207,70 @@ Example C17_example_commit :
   = [-1; -1; -1; -1; 8] /\
   snd (f_commit_top None ops ex_store) = 4%nat.
 Proof. vm_compute. repeat split. Qed.
+
+(** *** Faults during the physical DeleteVersionsTo (PruneFault.v: the algorithm of PruneAlgo.v over
+    a storage whose k-th call - a read of GetNode / GetRoot, a batch Set / Delete, a flush, the
+    final Commit - fails).  For every reachable in-contract state, every flush schedule and EVERY
+    fault position: the deletion reports an error or is the fault-free run; what it leaves behind
+    - every state the disk went through AND the disk after the pending batch is written by a later
+    Commit - still reads every retained version back node for node; it issues no write the
+    fault-free run would not have issued.  The loop as it was before /repo commit 9c131ef is refuted
+    by a concrete fault position. *)
+From IAVL Require Import Ics23Facts Store StoreFacts MTree VersionFacts PruneAlgo PruneAlgoFacts6 PruneAlgoFacts9 PruneAlgoFacts10 PruneFault PruneFaultFacts1 PruneFaultFacts.
+Local Open Scope Z_scope.
+
+Theorem C17_deletion_fault_is_reported :
+  forall (H : bytes -> bytes), (forall x, length (H x) = 32%nat) ->
+  forall iv b ops (r : list Z) (sched : list bool) (eff : bool) (n : Z) (k : nat),
+    init_ok iv b -> run_ok H (init_state iv b) ops ->
+    let s := fst (run H (init_state iv b) ops) in
+    forest_bounds (forest s) -> rekey_ok r (forest s) -> n < version s -> n < latest_version s ->
+    (prune_forest_fault H true eff r (forest s) sched n (Some k) =
+       prune_forest_fault H true eff r (forest s) sched n None \/
+     exists p, prune_forest_fault H true eff r (forest s) sched n (Some k) = FErr p)
+    \/ collision H.
+Proof. exact fault_reported_reachable. Qed.
+Print Assumptions C17_deletion_fault_is_reported.
+
+Theorem C17_deletion_fault_leaves_retained_versions_intact :
+  forall (H : bytes -> bytes), (forall x, length (H x) = 32%nat) ->
+  forall iv b ops (r : list Z) (sched : list bool) (eff : bool) (n : Z) (k : nat) (p : pdb),
+    init_ok iv b -> run_ok H (init_state iv b) ops ->
+    let s := fst (run H (init_state iv b) ops) in
+    forest_bounds (forest s) -> rekey_ok r (forest s) -> n < version s -> n < latest_version s ->
+    prune_forest_fault H true eff r (forest s) sched n (Some k) = FErr p ->
+    (let f' := filter (fun q => n <? fst q) (forest s) in
+     Forall (fun d => readable H d f' = true) (dhist p) /\
+     readable H (disk (pflush p)) f' = true)
+    \/ collision H.
+Proof. exact fault_leaves_retained_intact_reachable. Qed.
+Print Assumptions C17_deletion_fault_leaves_retained_versions_intact.
+
+Theorem C17_deletion_fault_causes_no_extra_write :
+  forall (H : bytes -> bytes), (forall x, length (H x) = 32%nat) ->
+  forall (s : mstate) (r : list Z) (sched : list bool) (eff : bool) (n : Z) (k : nat) (p : pdb),
+    store_ok H s -> forest_bounds (forest s) -> rekey_ok r (forest s) -> n < latest_version s ->
+    prune_forest_fault H true eff r (forest s) sched n (Some k) = FErr p ->
+    (exists p0 W, prune_forest_fault H true eff r (forest s) sched n None = FOk p0 /\
+                  wlog p0 = wlog p ++ W)
+    \/ collision H.
+Proof. exact fault_prefix. Qed.
+Print Assumptions C17_deletion_fault_causes_no_extra_write.
+
+(** the fault-free instance of the fault model IS the algorithm tied to the code (PruneAlgo) *)
+Theorem C17_fault_model_is_the_tied_algorithm :
+  forall (H : bytes -> bytes) (eff : bool) (st : store) (schedule : list bool) (first latest to : Z),
+    pf_result eff (prune_fault H true eff st schedule first latest to None) =
+    prune_phys H eff st schedule first latest to /\
+    pf_disks (prune_fault H true eff st schedule first latest to None) =
+    prune_phys_disks H eff st schedule first latest to.
+Proof. exact PF_fault_free_same. Qed.
+Print Assumptions C17_fault_model_is_the_tied_algorithm.
+
+Theorem C17_unfixed_orphan_loop_refuted : ltac:(let t := type of unfixed_read_fault_refuted in exact t).
+Proof. exact unfixed_read_fault_refuted. Qed.
+Print Assumptions C17_unfixed_orphan_loop_refuted.
+
+(** every fault position of one deletion, enumerated *)
+Example C17_all_fault_positions_example : ltac:(let t := type of pf_all_positions_1 in exact t).
+Proof. exact pf_all_positions_1. Qed.
